@@ -16,3 +16,7 @@ def run(ctx, rep):
     more2.rule_arg_names(mod, rep, lambda f: re.match(r"p[sdcz]gssvx$|[sdcz]gstrs$|[sdcz]gsrfs$|[sdcz]laqgs$|[sdcz]gsequ$", f.name) is not None, floor=1)
     from ..rules import equil
     equil.rule_laqgs_table(mod, rep)          # the driver's B/X scaling decisions rest on the equed that ?laqgs reports
+    from ..rules import more3
+    more3.rule_cursor_step(mod, rep)
+    from ..rules import more4
+    more4.rule_row_block(mod, rep)
